@@ -100,7 +100,7 @@ pub fn gen_workload(sub: u64) -> Workload {
         }
     }
     let binary_flag = ["", "", "--binary", "--text"][rng.below(4)];
-    let mode = ["lines", "lines", "lines", "count", "list", "context", "multiline", "swarm", "swarm"][rng.below(9)];
+    let mode = ["lines", "lines", "lines", "count", "list", "context", "multiline", "swarm", "swarm", "without-match"][rng.below(10)];
     let via_stdin = rng.chance(1, 7);
     if via_stdin {
         corpus.files.truncate(1);
@@ -110,6 +110,10 @@ pub fn gen_workload(sub: u64) -> Workload {
     let mmap = if rng.chance(1, 2) { "--mmap" } else { "--no-mmap" };
     let failing_explicit = if !explicit && rng.chance(1, 4) { Some(if mmap == "--no-mmap" && rng.chance(1, 2) { "read" } else { "open" }) } else { None };
     Workload { corpus, explicit, binary_flag, mmap, frag: rng.chance(1, 2) && !via_stdin, mode, placements, via_stdin, failing_explicit, limit: None }
+}
+
+fn args_have(args: &[String], any: &[&str]) -> bool {
+    args.iter().any(|a| any.contains(&a.as_str()))
 }
 
 /// Model lines "w/path:N:text" for the literal pattern foo, detection disabled.
@@ -144,7 +148,15 @@ pub fn run_workload(sub: u64, acc: &mut Acc, ctx: &Ctx, _thorough: bool) {
     }
     match w.mode {
         "lines" => args.extend(["-n".into(), "--no-heading".into(), "--with-filename".into()]),
-        "count" => args.extend(["-c".into(), "--with-filename".into()]),
+        "count" => {
+            args.extend(["-c".into(), "--with-filename".into()]);
+            match sub % 4 {
+                1 => args.push("--count-matches".into()),
+                2 => args.push("--include-zero".into()),
+                _ => {}
+            }
+        }
+        "without-match" => args.push("--files-without-match".into()),
         "list" => args.push("-l".into()),
         "context" => args.extend(["-n".into(), "--no-heading".into(), "--with-filename".into(), "-C1".into()]),
         "multiline" => args.extend(["-n".into(), "--no-heading".into(), "--with-filename".into(), "-U".into()]),
@@ -232,6 +244,65 @@ pub fn run_workload(sub: u64, acc: &mut Acc, ctx: &Ctx, _thorough: bool) {
             acc.violation("C14", &format!("nul-on-stdout:{}:{}", if w.explicit { "explicit" } else { "implicit" }, w.mmap), format!("a NUL byte was written to stdout at offset {p}: {:?}", show(&got.stdout[p.saturating_sub(60)..(p + 10).min(got.stdout.len())])), sub, body(sub, &w, &spec, &got, json!(null)));
             return;
         }
+    }
+    if w.mode == "swarm" && (w.explicit || w.binary_flag == "--binary" || text_mode) && !args_have(&spec.args, &["-v", "--files-without-match", "--json"]) {
+        // Flags that only shape the output never change whether something matched: with every
+        // file named explicitly (or --binary / --text) the exit status must be that of the same
+        // search without them.
+        const SHAPING: [&str; 24] = ["-o", "-rX", "-b", "--column", "--vimgrep", "--max-columns=30", "--max-columns-preview", "--passthru", "--heading", "-c", "--count-matches", "-l", "-A2", "-B1", "-C3", "--trim", "--no-line-number", "--with-filename", "--no-filename", "--context-separator=::", "--field-match-separator=|", "--include-zero", "-m1", "-m3"];
+        let plain_spec = RunSpec { args: spec.args.iter().filter(|a| !SHAPING.contains(&a.as_str())).cloned().collect(), ..spec.clone() };
+        if plain_spec.args.len() != spec.args.len() {
+            let plain = ctx.run(&cwd, &plain_spec, 60);
+            acc.evals += 1;
+            if plain.code != got.code && plain.code <= 1 && got.code <= 1 && !plain.timed_out && !got.timed_out {
+                acc.violation("C14", "output-shaping-flags-change-exit-status", format!("exit {} with {:?}, exit {} without the output-shaping flags among them", got.code, spec.args, plain.code), sub, body(sub, &w, &spec, &got, json!({"without_shaping_flags": plain.to_json(), "plain_args": plain_spec.args})));
+            }
+        }
+    }
+    if w.mode == "context" {
+        // asking for context lines never changes whether anything matched
+        let plain_spec = RunSpec { args: spec.args.iter().filter(|a| *a != "-C1").cloned().collect(), ..spec.clone() };
+        let plain = ctx.run(&cwd, &plain_spec, 60);
+        acc.evals += 1;
+        if plain.code != got.code && !plain.timed_out && !got.timed_out {
+            acc.violation("C14", "context-changes-exit-status", format!("exit {} with -C1, exit {} without it (same files, same pattern)", got.code, plain.code), sub, body(sub, &w, &spec, &got, json!({"without_context": plain.to_json()})));
+        }
+    }
+    if matches!(w.mode, "count" | "without-match") && !text_mode && !w.explicit && w.binary_flag.is_empty() {
+        // a traversed file with a NUL byte in the part that is examined up front is dropped: the
+        // summary modes must not mention it at all (not with a count, not with a zero, not as a
+        // file without a match)
+        let out_lines = lines(&got.stdout);
+        for (p, c) in &w.corpus.files {
+            let Some(z) = c.iter().position(|&b| b == 0) else { continue };
+            if z >= 65_536 {
+                continue;
+            }
+            let label = format!("w/{p}");
+            if out_lines.iter().any(|l| l.starts_with(format!("{label}:").as_bytes()) || *l == label.as_bytes()) {
+                acc.violation("C14", &format!("dropped-binary-file-listed:{}", w.mode), format!("{label} has a NUL byte at offset {z} and was reached by traversal, yet the {} output mentions it", if w.mode == "count" { "count" } else { "--files-without-match" }), sub, body(sub, &w, &spec, &got, json!({"file": p, "first_nul": z})));
+            }
+        }
+    }
+    if matches!(w.mode, "context" | "count" | "list" | "multiline") && !text_mode {
+        // with context lines requested: an explicitly named file (or any file under --binary)
+        // that has a matching line may be reduced to the notice, but not to silence
+        let convert = w.explicit || w.binary_flag == "--binary";
+        if convert {
+            let out_lines = lines(&got.stdout);
+            for (p, c) in &w.corpus.files {
+                if !c.contains(&0) {
+                    continue;
+                }
+                let label = if w.via_stdin { "<stdin>".to_string() } else { format!("w/{p}") };
+                let t = model_lines(&label, c);
+                let any = out_lines.iter().any(|l| l.starts_with(format!("{label}:").as_bytes()) || l.starts_with(format!("{label}-").as_bytes()) || *l == label.as_bytes());
+                if !t.is_empty() && !any {
+                    acc.violation("C14", &format!("matching-binary-file-silent:{}", w.mode), format!("{label} has {} matching lines but in {} mode nothing at all was printed for it - neither a line, a count, its name nor a 'binary file matches' notice (exit {})", t.len(), w.mode, got.code), sub, body(sub, &w, &spec, &got, json!({"file": p, "model_lines": t.len()})));
+                }
+            }
+        }
+        return;
     }
     if w.mode != "lines" {
         return;
